@@ -126,6 +126,9 @@ pub struct LifeObs {
     #[serde(default)]
     pub rewritten: Option<(usize, Vec<u8>, u64)>,
     pub steps: Vec<StepObs>,
+    /// memory-management calls made while the injector was being created
+    #[serde(default)]
+    pub new_log: Vec<LogEv>,
     pub exit: String,
     pub drop_panicked: Option<String>,
     pub drop_log: Vec<LogEv>,
@@ -215,6 +218,7 @@ pub fn execute(c: &HistCase, opts: &Opts) -> HistObs {
     ip::log_clear();
     // ---- targets
     let mut tg: Vec<Target> = targets::real_targets();
+    tg.extend(targets::async_targets());
     let mut arenas: Vec<Arena> = vec![];
     let mut last_slot = vec![false; tg.len()];
     for (i, s) in c.synth.iter().enumerate() {
@@ -238,11 +242,28 @@ pub fn execute(c: &HistCase, opts: &Opts) -> HistObs {
         // (the body of a forwarder lives at +48, i.e. in the slot of neighbour +3: a live,
         // never-named function whose bytes the snapshot diff watches)
         a.put_shaped(addr, id, s.shape);
+        // two fakes in the same arena (near the target): one at the very start of a page, one
+        // unaligned; both are executable memory the injector does not own
+        let f0 = if off >= 256 { base } else { base + PAGE };
+        let f1 = if off >= 0x800 { base + 0x108 } else { base + PAGE + 0x808 };
+        let (v0, v1) = if s.boolean { (1u64, 0u64) } else { (0x7F00 + 2 * i as u64, 0x7F01 + 2 * i as u64) };
+        // (the page-aligned one sits at base+PAGE only when the target is in the first 256 bytes
+        // of the arena, so it never overlaps the target's neighbourhood)
+        let room = |f: usize| f + 16 <= addr.saturating_sub(48) || f >= addr + 48 + 64;
+        let mut arena_fakes = vec![];
+        if room(f0) && a.put_ret_id(f0, v0 as u32) {
+            arena_fakes.push((f0, v0));
+        }
+        if room(f1) && a.put_ret_id(f1, v1 as u32) {
+            arena_fakes.push((f1, v1));
+        }
         a.seal();
         o.arena_pages.push(base as u64);
         o.arena_pages.push((base + PAGE) as u64);
         arenas.push(a);
-        tg.push(targets::synthetic_target(addr, if s.boolean { Class::B } else { Class::U }, id as u64, format!("synth{i}@{addr:#x}")));
+        let mut t = targets::synthetic_target(addr, if s.boolean { Class::B } else { Class::U }, id as u64, format!("synth{i}@{addr:#x}"));
+        t.arena_fakes = arena_fakes;
+        tg.push(t);
         last_slot.push(off >= PAGE - 16);
     }
     let n = tg.len();
@@ -290,6 +311,17 @@ pub fn execute(c: &HistCase, opts: &Opts) -> HistObs {
             let runs0 = targets::ORIG_RUNS.load(SeqCst);
             crate::worker::phase("new");
             let mut inj = ip::sut(InjectorPP::new);
+            // creating an injector maps and unmaps nothing
+            let evs_new = ip::log_snapshot();
+            for e in &evs_new {
+                if e.kind == ip::Kind::Munmap {
+                    o.agg_munmaps += 1;
+                    o.agg_bad_unmaps += 1;
+                }
+            }
+            if detailed && opts.logs {
+                lo.new_log = log_events(&evs_new);
+            }
             // model state only for choosing the decode expectation of calls
             let mut top: Vec<Option<(u64, Option<u64>)>> = vec![None; n];
             let mut kept: Vec<(u64, u64)> = vec![]; // live trampolines (addr,len)
@@ -301,7 +333,7 @@ pub fn execute(c: &HistCase, opts: &Opts) -> HistObs {
                         let ti = *t as usize % n;
                         let tgt = &tg[ti];
                         let kinds = targets::legal_kinds(tgt.class);
-                        let mut kind = if kinds.contains(kind) || (tgt.class == Class::U && matches!(kind, Kind::Times(_))) { *kind } else { kinds[*k as usize % kinds.len()] };
+                        let mut kind = if kinds.contains(kind) || (tgt.class == Class::U && matches!(kind, Kind::Times(_))) || (!tgt.arena_fakes.is_empty() && matches!(kind, Kind::ArenaFake(_))) { *kind } else { kinds[*k as usize % kinds.len()] };
                         // one counted installation per call site and lifetime (the counter is a
                         // static of the site)
                         if let Kind::Times(n) = kind {
@@ -456,7 +488,7 @@ pub fn execute(c: &HistCase, opts: &Opts) -> HistObs {
 // generator
 
 fn kind_strategy() -> impl Strategy<Value = Kind> {
-    prop_oneof![2 => Just(Kind::Raw), 2 => Just(Kind::Closure), 2 => Just(Kind::FakeMacro), 2 => Just(Kind::Unchecked), 1 => Just(Kind::Bool(true)), 1 => Just(Kind::Bool(false)), 3 => (0u8..3).prop_map(Kind::Times)]
+    prop_oneof![2 => Just(Kind::Raw), 2 => Just(Kind::Closure), 2 => Just(Kind::FakeMacro), 2 => Just(Kind::Unchecked), 1 => Just(Kind::Bool(true)), 1 => Just(Kind::Bool(false)), 3 => (0u8..3).prop_map(Kind::Times), 1 => Just(Kind::Async), 1 => Just(Kind::AsyncUnchecked), 3 => (0u8..6).prop_map(Kind::ArenaFake)]
 }
 
 pub fn strategy(max_lifetimes: usize, max_steps: usize, synth_bias_last_slot: bool) -> impl Strategy<Value = HistCase> {
@@ -478,7 +510,23 @@ pub fn strategy_rw(max_lifetimes: usize, max_steps: usize, synth_bias_last_slot:
         2 => (0u8..12).prop_map(|t| Step::Call { t }),
     ];
     let rw = if rewrites { prop::option::weighted(0.25, (any::<u8>(), any::<u16>())).boxed() } else { Just(None).boxed() };
-    let life = (prop::collection::vec(step, 0..=max_steps), prop_oneof![3 => Just(Exit::Normal), 1 => Just(Exit::Unwind)], rw).prop_map(|(steps, exit, rewrite)| Lifetime { steps, exit, rewrite });
+    // a "re-fake run": one function faked 3-5 times in a row from a palette of two kinds (so that
+    // a kind recurs after a different one in between), called after every installation
+    let refake = (0u8..12, kind_strategy(), kind_strategy(), prop::collection::vec(any::<bool>(), 3..=5), 0u8..4).prop_map(|(t, a, b, picks, k)| {
+        let mut v = vec![];
+        for (i, p) in picks.iter().enumerate() {
+            // first and third installation use the same kind, the rest follow the picks
+            let kind = if i == 0 || i == 2 { a } else if i == 1 || *p { b } else { a };
+            v.push(Step::Install { t, kind, k });
+            v.push(Step::Call { t });
+        }
+        v
+    });
+    let steps = prop_oneof![
+        4 => prop::collection::vec(step.clone(), 0..=max_steps).boxed(),
+        1 => (prop::collection::vec(step.clone(), 0..=max_steps / 2), refake, prop::collection::vec(step, 0..=max_steps / 3)).prop_map(|(mut a, b, c)| { a.extend(b); a.extend(c); a }).boxed(),
+    ];
+    let life = (steps, prop_oneof![3 => Just(Exit::Normal), 1 => Just(Exit::Unwind)], rw).prop_map(|(steps, exit, rewrite)| Lifetime { steps, exit, rewrite });
     (synth, prop::collection::vec(life, 1..=max_lifetimes), any::<u8>()).prop_map(|(synth, lifetimes, focus)| {
         // concentrate the history on a few targets: indices are folded onto a window of 4
         let lifetimes = lifetimes
